@@ -103,7 +103,8 @@ package cluster
 //@ guarded loadedShard.shard by mu read
 
 //@ func (*ShardManager).loadShard
-//@   property C12
+//@   property C12 C16
+//@   before Join requires (len(arg0) == 5 && arg0[0] == sm.cfg.RootDir && arg0[1] == "userCollections" && arg0[2] == collection.UserId && arg0[3] == collection.Id && arg0[4] == shardId) || (len(arg0) == 2 && arg0[1] == "sharddb.bbolt")
 //@   locks 10
 //@   requires unheld(sm.shardLock)
 //@   requires forallv(k string, contains(sm.shardStore, k) ==> sm.shardStore[k] != nil)
@@ -129,13 +130,18 @@ package cluster
 //@   ensures unheld(sm.shardLock) && noneHeld(loadedShard.mu)
 
 //@ func (*ShardManager).DeleteCollectionShards
-//@   property C12
+//@   property C12 C16
+//@   before Join requires (len(arg0) == 4 && arg0[0] == sm.cfg.RootDir && arg0[1] == "userCollections" && arg0[2] == collection.UserId && arg0[3] == collection.Id) || len(arg0) == 2
 //@   safety -overflow
 //@   requires unheld(sm.shardLock) && noneHeld(loadedShard.mu)
 //@   requires forallv(k string, contains(sm.shardStore, k) ==> sm.shardStore[k] != nil)
 //@   ensures unheld(sm.shardLock) && noneHeld(loadedShard.mu)
 //@   loop 1 invariant rangeindex >= -1 && heldW(sm.shardLock) && noneHeld(loadedShard.mu)
 //@   loop 1 invariant forallv(k string, contains(sm.shardStore, k) ==> sm.shardStore[k] != nil)
+
+// (shard paths, property C16: every shard directory is <root>/userCollections/<user id>/<collection
+// id>/<shard id>, built from the request's own collection - stated at the Join call sites of
+// loadShard, DeleteCollectionShards and RPCSendShard)
 
 // ---- tenant isolation of the collection records (property C16) ----
 // Every access of a collection RPC to the node database uses a key (or scan prefix) that starts
@@ -198,8 +204,9 @@ package cluster
 // A transfer of a shard file starts from an empty destination file: the receiver truncates on the
 // first chunk (otherwise a retried transfer appends to the remains of an interrupted one).
 //@ func (*ClusterNode).RPCSendShard
-//@   property C14
+//@   property C14 C16
 //@   arith bv
+//@   before Join requires len(arg0) == 6 && arg0[1] == "userCollections" && arg0[2] == args.UserId && arg0[3] == args.CollectionId && arg0[4] == args.ShardId && arg0[5] == "sharddb.bbolt"
 //@   requires c.cfg.RpcRetries >= 1
 //@   before OpenFile requires old(args.ChunkIndex) == 0 ==> arg1 & os.O_TRUNC != 0
 //@   before OpenFile requires arg1 & os.O_APPEND != 0 && arg1 & os.O_CREATE != 0
